@@ -146,6 +146,17 @@ def check(run, terrs):
         pre["preintern"] = r.choice([0, 1, 50, 700, 5000])
         seqs.append({"seq": prefix + [pre]})
         idx.append(len(prefix))
+    # programs on both sides of the frame limit after k programs that were stopped by it
+    from props.c04 import limit_boundary_requests
+    near, over = limit_boundary_requests()
+    near = [dict(q, errtext=True, out="default") for q in near]
+    over = [dict(q, errtext=True, out="default") for q in over]
+    base = base + near
+    fresh = fresh + core.run_harness(binary, "eval", near)
+    for j, q in enumerate(near):
+        k = 1 + j % 4
+        seqs.append({"seq": [over[j % 2]] * k + [dict(q, preintern=0)]})
+        idx.append(k)
     outs = core.run_harness(binary, "eval", seqs)
     for rq, f0, o, k, sq in zip(base, fresh, outs, idx, seqs):
         run.note_case("hist:" + rq["code"] + str(k) + str(sq["seq"][-1].get("preintern")), True)
